@@ -696,7 +696,7 @@ def run(check):
                          'Unicode decimal digits other than ASCII are outside the modelled universe: int(), Decimal(), int(.,16) and the \\d of a str pattern accept them, the models do not',
                          'str_format/format customisations are opaque (default formats only); Uuid: default serialize_as only; Decimal: default decimal context (capitals=1)',
                          'Decimal values are within the maximal decimal context (dec_in_limits), as every decimal.Decimal object is',
-                         'the duration regular expression is tied to the hand-written scanner of DurModel.v by correspondence (regex_rx_inbase_duration) and a string pin, not by a theorem']
+                         'strptime(s, \'%Y-%m-%d\') inside date_from_unicode is CPython\'s own pattern: modelled by the hand-written scan_month / scan_day of DtModel.v (tied by correspondence), not translated']
     check.regen(['numtypes', 'tokens', 'regexes'])
     check.check_sources()
     check.prove('Props.C08', THEOREMS)
